@@ -319,6 +319,16 @@ type Exec struct {
 	Trunc   bool              // exploration hit Limit (treated as checker error by callers)
 	Alias   map[string]string // variable key -> role name used in canonical strings
 
+	// InlineCallee, when set, selects same-package callees whose bodies are
+	// explored in place at their call sites (extracted helpers): it returns
+	// the declaration to inline or nil to treat the call as before.
+	InlineCallee func(f *types.Func) *ast.FuncDecl
+	Inlined      map[string]int // callee name -> number of in-place explorations
+	depth        int
+	sink         func(st *State, kind string, pos token.Pos, rs *ast.ReturnStmt, ret []string)
+	ctxs         map[*ast.BlockStmt]*fnCtx
+	calleeStack  []*ast.FuncDecl
+
 	condSet  map[ast.Expr]*ast.SwitchStmt // case expressions -> their switch (nil tag => boolean)
 	isCond   map[ast.Expr]bool            // if/for conditions
 	commStmt map[ast.Stmt]bool            // select communication statements
@@ -333,7 +343,28 @@ func New(p *core.Prog, name string, typ *ast.FuncType, body *ast.BlockStmt, spec
 	x := &Exec{P: p, Spec: spec, Name: name, Body: body, Type: typ, Vars: map[string]*Var{}, Opaque: map[string]int{},
 		Limit: 400000, condSet: map[ast.Expr]*ast.SwitchStmt{}, isCond: map[ast.Expr]bool{}, commStmt: map[ast.Stmt]bool{},
 		effSeen: map[string]bool{}, exitSeen: map[string]bool{}, pure: map[*types.Func]bool{}}
-	x.G = cfg.New(body, func(call *ast.CallExpr) bool {
+	x.Inlined = map[string]int{}
+	x.ctxs = map[*ast.BlockStmt]*fnCtx{}
+	x.G = x.ctxFor(body).G
+	return x
+}
+
+// fnCtx is the control-flow context of one function body (the explored
+// function, or a callee explored in place).
+type fnCtx struct {
+	G    *cfg.CFG
+	Body *ast.BlockStmt
+}
+
+// ctxFor builds (once) the CFG of a body and registers its conditions,
+// switch cases and select communications.
+func (x *Exec) ctxFor(body *ast.BlockStmt) *fnCtx {
+	if c, ok := x.ctxs[body]; ok {
+		return c
+	}
+	p := x.P
+	c := &fnCtx{Body: body}
+	c.G = cfg.New(body, func(call *ast.CallExpr) bool {
 		if p.Builtin(call) == "panic" {
 			return false
 		}
@@ -370,7 +401,8 @@ func New(p *core.Prog, name string, typ *ast.FuncType, body *ast.BlockStmt, spec
 		}
 		return true
 	})
-	return x
+	x.ctxs[body] = c
+	return c
 }
 
 // DeclareVar registers a finite-domain variable.
@@ -405,12 +437,21 @@ func (x *Exec) Run() {
 	defer debug.SetGCPercent(old)
 	init := &State{Cube: map[string]string{}, Store: map[string]Term{}, Seen: map[string]int{}}
 	init = x.Spec.Init(x, init)
+	x.sink = func(st *State, kind string, pos token.Pos, rs *ast.ReturnStmt, ret []string) {
+		x.exit(st, kind, pos, ret)
+	}
+	x.explore(x.ctxFor(x.Body), init)
+}
+
+// explore runs the worklist over one body from init; every way out of the
+// body is handed to x.sink.
+func (x *Exec) explore(fc *fnCtx, init *State) {
 	type item struct {
 		b  *cfg.Block
 		st *State
 	}
 	visited := map[string]bool{}
-	work := []item{{x.G.Blocks[0], init}}
+	work := []item{{fc.G.Blocks[0], init}}
 	push := func(b *cfg.Block, st *State) {
 		k := fmt.Sprintf("%d#%s", b.Index, st.key())
 		if visited[k] {
@@ -419,7 +460,7 @@ func (x *Exec) Run() {
 		visited[k] = true
 		work = append(work, item{b, st})
 	}
-	visited[fmt.Sprintf("%d#%s", x.G.Blocks[0].Index, init.key())] = true
+	visited[fmt.Sprintf("%d#%s", fc.G.Blocks[0].Index, init.key())] = true
 	for len(work) > 0 {
 		it := work[len(work)-1]
 		work = work[:len(work)-1]
@@ -485,7 +526,7 @@ func (x *Exec) Run() {
 		case 0:
 			for _, st := range states {
 				kind := "end"
-				pos := x.Body.Rbrace
+				pos := fc.Body.Rbrace
 				if len(b.Nodes) > 0 {
 					if es, ok := b.Nodes[len(b.Nodes)-1].(*ast.ExprStmt); ok {
 						if c, ok := es.X.(*ast.CallExpr); ok && x.P.Builtin(c) == "panic" {
@@ -497,7 +538,7 @@ func (x *Exec) Run() {
 				if !b.Live || b.Kind == cfg.KindSelectAfterCase {
 					continue // dead code, or the "no arm ready" tail of a select without default (blocks; not an exit)
 				}
-				x.exit(st, kind, pos, nil)
+				x.sink(st, kind, pos, nil, nil)
 			}
 		case 1:
 			for _, st := range states {
@@ -581,7 +622,7 @@ func (x *Exec) execReturn(st *State, rs *ast.ReturnStmt) []*State {
 		for _, r := range rs.Results {
 			ret = append(ret, x.ValueName(s, r, nil))
 		}
-		x.exit(s, "return", rs.Pos(), ret)
+		x.sink(s, "return", rs.Pos(), rs, ret)
 	}
 	return states
 }
@@ -775,11 +816,19 @@ func (x *Exec) execAssign(st *State, s *ast.AssignStmt, env *Env) []*State {
 	tok := x.Tok(s.Pos())
 	for _, c := range states {
 		c = x.Forget(c, tok)
+		// results of a call are named like single results: by the values the
+		// receiver and the operands hold before any result is assigned
+		base := x.canonEnv(rhs, env)
+		if call, ok := rhs.(*ast.CallExpr); ok {
+			if vt := x.valueTerm(c, call, env); vt.K == KSym && strings.HasSuffix(vt.S, x.Tok(call.Pos())) {
+				base = strings.TrimSuffix(vt.S, x.Tok(call.Pos()))
+			}
+		}
 		for i, l := range s.Lhs {
 			if id, ok := l.(*ast.Ident); ok && id.Name == "_" {
 				continue
 			}
-			name := fmt.Sprintf("%s%s#%d", x.canonEnv(rhs, env), tok, i)
+			name := fmt.Sprintf("%s%s#%d", base, tok, i)
 			var val Term
 			switch r := rhs.(type) {
 			case *ast.IndexExpr: // v, ok := m[k]
@@ -800,6 +849,11 @@ func (x *Exec) execAssign(st *State, s *ast.AssignStmt, env *Env) []*State {
 				val = Sym(fmt.Sprintf("recv%s#%d", tok, i))
 			default:
 				val = Sym(name)
+				if call, ok := rhs.(*ast.CallExpr); ok {
+					if t, ok := c.Store[resKey(x.Tok(call.Pos()), i)]; ok {
+						val = t
+					}
+				}
 			}
 			lk := x.LocKey(c, l, env)
 			c = x.kill(c, lk, tok)
@@ -1085,6 +1139,10 @@ func (x *Exec) LocKey(st *State, e ast.Expr, env *Env) string {
 		if t, ok := st.Store[bk]; ok && t.K == KSym && t.S != "" && !strings.HasPrefix(t.S, "&") && (!strings.ContainsAny(t.S, "(@") || (strings.HasPrefix(t.S, "*") && !strings.Contains(t.S, "@"))) {
 			return t.S + suffix
 		}
+		// a pointer to a plain location (p := &v, or a parameter handed &v): p.f is v.f
+		if t, ok := st.Store[bk]; ok && t.K == KSym && strings.HasPrefix(t.S, "&") && len(t.S) > 1 && !strings.ContainsAny(t.S[1:], "({@&*") {
+			return t.S[1:] + suffix
+		}
 		return bk + suffix
 	}
 	return x.canonEnv(e, env)
@@ -1111,6 +1169,11 @@ func (x *Exec) valueTerm(st *State, e ast.Expr, env *Env) Term {
 	if id, ok := e.(*ast.Ident); ok && env != nil {
 		if a, outer, ok := env.lookup(x.P.Info.Uses[id]); ok {
 			return x.valueTerm(st, a, outer)
+		}
+	}
+	if call, ok := e.(*ast.CallExpr); ok {
+		if t, ok := st.Store[resKey(x.Tok(call.Pos()), 0)]; ok {
+			return t
 		}
 	}
 	key := x.LocKey(st, e, env)
@@ -1240,7 +1303,7 @@ func (x *Exec) evalCalls(st *State, e ast.Expr, env *Env) []*State {
 			if v.Op == token.ARROW {
 				var next []*State
 				for _, c := range states {
-					next = append(next, x.Effect(c, "RECV", v.Pos(), map[string]string{"chan": x.canonEnv(v.X, env)}))
+					next = append(next, x.Effect(c, "RECV", v.Pos(), map[string]string{"chan": x.LocKey(c, v.X, env)}))
 				}
 				states = next
 			}
@@ -1339,7 +1402,197 @@ func (x *Exec) call(st *State, call *ast.CallExpr, env *Env) []*State {
 	if outs, ok := x.Spec.Call(x, st, call, env); ok {
 		return outs
 	}
+	if x.InlineCallee != nil {
+		if f := x.P.Callee(call); f != nil {
+			if decl := x.InlineCallee(f); decl != nil {
+				if outs, ok := x.inlineCall(st, call, decl, env); ok {
+					return outs
+				}
+			}
+		}
+	}
 	return []*State{x.GenericCallKill(st, call, env)}
+}
+
+// isRoleName: a short lower-case identifier used as a role name by the rule specs.
+func isRoleName(s string) bool {
+	if len(s) == 0 || len(s) > 8 {
+		return false
+	}
+	for _, r := range s {
+		if r < 'a' || r > 'z' {
+			return false
+		}
+	}
+	return true
+}
+
+// resKey names the i-th result of the in-place exploration of the call at tok.
+func resKey(tok string, i int) string { return fmt.Sprintf("$res%s#%d", tok, i) }
+
+// inlineCall explores the callee's body in place: parameters (and the
+// receiver) are bound to the abstract values of the operands, the callee's
+// own deferred calls run at its exits, and every way out continues in the
+// caller with the returned values bound under resKey. Effects inside the
+// callee are recorded like the caller's own.
+func (x *Exec) inlineCall(st *State, call *ast.CallExpr, decl *ast.FuncDecl, env *Env) ([]*State, bool) {
+	if decl.Body == nil || x.depth >= 3 {
+		return nil, false
+	}
+	for _, d := range x.calleeStack {
+		if d == decl {
+			return nil, false // recursion
+		}
+	}
+	if call.Ellipsis.IsValid() {
+		return nil, false
+	}
+	// operands
+	type bind struct {
+		id  *ast.Ident
+		arg ast.Expr
+	}
+	var binds []bind
+	if decl.Recv != nil && len(decl.Recv.List) == 1 && len(decl.Recv.List[0].Names) == 1 {
+		se, ok := ast.Unparen(call.Fun).(*ast.SelectorExpr)
+		if !ok {
+			return nil, false
+		}
+		binds = append(binds, bind{decl.Recv.List[0].Names[0], se.X})
+	}
+	i := 0
+	for _, f := range decl.Type.Params.List {
+		if _, variadic := f.Type.(*ast.Ellipsis); variadic {
+			return nil, false
+		}
+		if len(f.Names) == 0 {
+			i++
+			continue
+		}
+		for _, n := range f.Names {
+			if i >= len(call.Args) {
+				return nil, false
+			}
+			binds = append(binds, bind{n, call.Args[i]})
+			i++
+		}
+	}
+	if i != len(call.Args) {
+		return nil, false
+	}
+	tok := x.Tok(call.Pos())
+	// bind operands (booleans split the state)
+	states := []*State{st}
+	for _, b := range binds {
+		if b.id.Name == "_" {
+			continue
+		}
+		key := x.canonEnv(b.id, nil)
+		var next []*State
+		for _, c := range states {
+			if isBool(x.P.TypeOf(b.arg)) {
+				for _, o := range x.EvalBool(c, b.arg, env) {
+					n := x.kill(o.St, key, tok)
+					next = append(next, n.Bind(key, boolTerm(o.V)))
+				}
+				continue
+			}
+			val := x.valueTerm(c, b.arg, env)
+			// an operand that is one of the caller's roles ("m", "rec", "c", ...) gives the
+			// parameter the same role name, so that names built from the callee's own
+			// spelling agree with the caller's (unless another call site disagrees)
+			if val.K == KSym && isRoleName(val.S) {
+				if o := x.P.Info.Defs[b.id]; o != nil {
+					vk := x.P.VarKey(o)
+					if cur, has := x.Alias[vk]; !has {
+						x.SetAlias(o, val.S)
+						key = x.canonEnv(b.id, nil)
+					} else if cur != val.S {
+						return nil, false // conflicting roles at different call sites: keep the call opaque
+					} else {
+						key = x.canonEnv(b.id, nil)
+					}
+				}
+			}
+			n := x.kill(c, key, tok)
+			n = n.Bind(key, val)
+			if (val.K == KSym && !strings.ContainsAny(val.S, "{")) || val.K == KConst {
+				n = n.Unbind("~" + key)
+			}
+			next = append(next, n)
+		}
+		states = next
+	}
+	name := decl.Name.Name
+	x.Inlined[name]++
+	fc := x.ctxFor(decl.Body)
+	var out []*State
+	saveSink := x.sink
+	x.depth++
+	x.calleeStack = append(x.calleeStack, decl)
+	for _, c := range states {
+		saved := c.Defers
+		c = c.clone()
+		c.Defers = nil
+		x.sink = func(s2 *State, kind string, pos token.Pos, rs *ast.ReturnStmt, ret []string) {
+			// the callee's own deferred calls
+			exits := []*State{s2}
+			for j := len(s2.Defers) - 1; j >= 0; j-- {
+				var nx []*State
+				for _, e := range exits {
+					nx = append(nx, x.execDeferred(e, s2.Defers[j])...)
+				}
+				exits = nx
+			}
+			for _, e := range exits {
+				if kind == "panic" {
+					// the panic unwinds through the caller as well
+					e = e.clone()
+					e.Defers = saved
+					saveSink(e, kind, pos, nil, nil)
+					continue
+				}
+				// returned values
+				rets := []*State{e}
+				var results []ast.Expr
+				if rs != nil && len(rs.Results) > 0 {
+					results = rs.Results
+				} else if decl.Type.Results != nil {
+					for _, f := range decl.Type.Results.List {
+						for _, n := range f.Names {
+							results = append(results, n)
+						}
+					}
+				}
+				if len(results) == 1 && decl.Type.Results != nil && decl.Type.Results.NumFields() > 1 {
+					results = nil // a tuple handed through from another call: results stay opaque
+				}
+				for ri, r := range results {
+					var nx []*State
+					for _, cur := range rets {
+						if isBool(x.P.TypeOf(r)) {
+							for _, o := range x.EvalBool(cur, r, nil) {
+								nx = append(nx, o.St.Bind(resKey(tok, ri), boolTerm(o.V)))
+							}
+						} else {
+							nx = append(nx, cur.Bind(resKey(tok, ri), x.valueTerm(cur, r, nil)))
+						}
+					}
+					rets = nx
+				}
+				for _, cur := range rets {
+					cur = cur.clone()
+					cur.Defers = saved
+					out = append(out, cur)
+				}
+			}
+		}
+		x.explore(fc, c)
+	}
+	x.sink = saveSink
+	x.depth--
+	x.calleeStack = x.calleeStack[:len(x.calleeStack)-1]
+	return out, true
 }
 
 // GenericCallKill forgets what a call may change: bindings below pointer
@@ -1530,12 +1783,22 @@ func (x *Exec) evalLoc(st *State, key string) []OutB {
 
 // evalBoolCall gives the truth value of a bool-valued call (effects done).
 func (x *Exec) evalBoolCall(st *State, call *ast.CallExpr, env *Env) []OutB {
+	if t, ok := st.Store[resKey(x.Tok(call.Pos()), 0)]; ok {
+		var out []OutB
+		for _, r := range x.Resolve(st, t) {
+			out = append(out, OutB{r.St, r.V == "T"})
+		}
+		return out
+	}
 	callee := x.P.Callee(call)
 	if callee != nil {
 		if core.FuncFullName(callee) == "bytes.Equal" && len(call.Args) == 2 {
 			return x.evalEq(st, call.Args[0], call.Args[1], env)
 		}
 		if ret, nenv, ok := x.Inline(call, env); ok {
+			return x.EvalBool(st, ret, nenv)
+		}
+		if ret, nenv, ok := x.inlineBoolBody(call, env); ok {
 			return x.EvalBool(st, ret, nenv)
 		}
 	}
@@ -1586,6 +1849,96 @@ func (x *Exec) Inline(call *ast.CallExpr, env *Env) (ast.Expr, *Env, bool) {
 		}
 	}
 	return rs.Results[0], &Env{M: m, Outer: env}, true
+}
+
+// inlineBoolBody extends Inline to bool-valued same-package helpers whose body
+// is a tree of if statements (no init clauses) whose leaves are single-value
+// returns: `if c { return a }; return b` is read as (c && a) || (!c && b).
+// Extracting a guard into such a helper (or inlining one) is then invisible
+// to the rules.
+func (x *Exec) inlineBoolBody(call *ast.CallExpr, env *Env) (ast.Expr, *Env, bool) {
+	callee := x.P.Callee(call)
+	if callee == nil {
+		return nil, nil, false
+	}
+	fi := x.P.ByObj[callee]
+	if fi == nil || fi.Decl.Body == nil || len(fi.Decl.Body.List) < 2 || len(fi.Decl.Body.List) > 8 {
+		return nil, nil, false
+	}
+	sig, _ := callee.Type().(*types.Signature)
+	if sig == nil || sig.Results().Len() != 1 {
+		return nil, nil, false
+	}
+	if b, ok := sig.Results().At(0).Type().Underlying().(*types.Basic); !ok || b.Kind() != types.Bool {
+		return nil, nil, false
+	}
+	e, ok := flattenBool(fi.Decl.Body.List, 0)
+	if !ok {
+		return nil, nil, false
+	}
+	m := map[types.Object]ast.Expr{}
+	if fi.Decl.Recv != nil && len(fi.Decl.Recv.List) == 1 && len(fi.Decl.Recv.List[0].Names) == 1 {
+		se, ok := ast.Unparen(call.Fun).(*ast.SelectorExpr)
+		if !ok {
+			return nil, nil, false
+		}
+		m[x.P.Info.Defs[fi.Decl.Recv.List[0].Names[0]]] = se.X
+	}
+	i := 0
+	for _, f := range fi.Decl.Type.Params.List {
+		for _, n := range f.Names {
+			if i >= len(call.Args) {
+				return nil, nil, false
+			}
+			m[x.P.Info.Defs[n]] = call.Args[i]
+			i++
+		}
+	}
+	return e, &Env{M: m, Outer: env}, true
+}
+
+func flattenBool(list []ast.Stmt, depth int) (ast.Expr, bool) {
+	if len(list) == 0 || depth > 6 {
+		return nil, false
+	}
+	switch s := list[0].(type) {
+	case *ast.ReturnStmt:
+		if len(s.Results) != 1 {
+			return nil, false
+		}
+		return s.Results[0], true
+	case *ast.IfStmt:
+		if s.Init != nil {
+			return nil, false
+		}
+		var rest []ast.Stmt
+		switch e := s.Else.(type) {
+		case nil:
+		case *ast.BlockStmt:
+			rest = append(rest, e.List...)
+		case *ast.IfStmt:
+			rest = append(rest, e)
+		default:
+			return nil, false
+		}
+		rest = append(rest, list[1:]...)
+		// the then-branch alone may fall through to what follows the if
+		thenE, ok := flattenBool(append(append([]ast.Stmt{}, s.Body.List...), list[1:]...), depth+1)
+		if !ok {
+			return nil, false
+		}
+		elseE, ok := flattenBool(rest, depth+1)
+		if !ok {
+			return nil, false
+		}
+		c := s.Cond
+		return &ast.BinaryExpr{
+			X:  &ast.BinaryExpr{X: &ast.ParenExpr{X: c}, Op: token.LAND, Y: &ast.ParenExpr{X: thenE}},
+			Op: token.LOR,
+			Y:  &ast.BinaryExpr{X: &ast.UnaryExpr{Op: token.NOT, X: &ast.ParenExpr{X: c}}, Op: token.LAND, Y: &ast.ParenExpr{X: elseE}},
+		}, true
+	}
+	return nil, false
 }
 
 // evalEq decides equality of two values by their symbolic names.
